@@ -36,13 +36,13 @@ def gen_cases(tier, seed):
                 rest = [x for x in secs if x not in keep]
                 secs = keep + [rest[i] for i in sorted(rng.choice(len(rest), 4 - len(keep), replace=False))]
             for (na, nb) in secs:
-                for rep in range(2 if q else 5):
+                for rep in range(2 if q else 20):
                     cases.append({"type": "scf", "kind": kind, "norb": norb, "nelec": [na, nb], "nchol": int(rng.integers(1, 5)),
                                   "s": int(rng.integers(1 << 30)), "group": "scf-%s-%d-%d-%d" % (kind, norb, na, nb), "cost": 3})
     for m in (["h2", "h4"] if q else ["h2", "h4", "lih", "h4ring"]):
         for kind in ("rhf", "uhf"):
             cases.append({"type": "mol", "kind": kind, "mol": m, "s": int(rng.integers(1 << 30)), "group": "mol-%s-%s" % (m, kind), "cost": 5})
-    for rep in range(100 if q else 800):
+    for rep in range(100 if q else 6000):
         cases.append({"type": "eigh", "n": int(rng.integers(2, 8)), "spec": str(rng.choice(["generic", "generic", "generic", "degenerate", "near", "identity", "zero"])),
                       "s": int(rng.integers(1 << 30)), "group": "eigh-%d" % (rep % 6)})
     return cases
